@@ -31,9 +31,27 @@ def proj(v):
     return {"t": "other", "repr": list(repr(v).encode())[:100]}
 
 
+_EXPORTED = None
+
+
+def _public_name(cls):
+    """the name under which the library exports an exception class (gufo.snmp.SnmpDecodeError is the Rust
+    type PySnmpDecodeError); other classes keep their own name"""
+    global _EXPORTED
+    if _EXPORTED is None:
+        _EXPORTED = {}
+        try:
+            from gufo.snmp import _fast
+            for n in ("SnmpError", "SnmpDecodeError", "SnmpEncodeError", "SnmpAuthError", "NoSuchInstance"):
+                _EXPORTED[getattr(_fast, n)] = n
+        except Exception:
+            pass
+    return _EXPORTED.get(cls, cls.__name__)
+
+
 def exc_info(e):
     """(class name, base class names, is Exception subclass)"""
-    return type(e).__name__, [c.__name__ for c in type(e).__mro__[1:]], isinstance(e, Exception)
+    return _public_name(type(e)), [_public_name(c) for c in type(e).__mro__[1:]], isinstance(e, Exception)
 
 
 def text(s):
